@@ -93,6 +93,11 @@ SUPPORT = {
 
 PLAIN_NAMES = ["a", "b", "c", "d", "e", "f", "g", "h", "k", "m", "p", "q", "r", "s", "t", "u", "v", "w", "x", "y", "z"] + \
     ["a%s" % ch for ch in "abcdefghijklmnopqrtuvwxyz"] + ["b%s" % ch for ch in "abcdefghijklmnop"]
+# names a generated body could plausibly bind itself (expansions are unhygienic: a generated `let inner = ..` would capture them)
+LOCAL_LIKE = ["inner", "this", "target", "delegate", "fut", "future", "result", "res", "ret", "out", "value", "tmp", "app", "me",
+                "_self", "self_", "args", "input", "output", "imp", "entrait", "deps_", "val", "arg"]
+PLAIN_NAMES += LOCAL_LIKE * 3   # weighted: about half of all parameter names
+# (no `__`-prefixed names: async_trait reserves `__self` / `__ret` / `__argN` for its own rewriting)
 
 
 class Param:
